@@ -212,5 +212,10 @@ func init() {
 		arithmeticFoundations(c)
 		groupFoundations(c, true)
 		readFullRule(c)
+		{
+			id := c.Configs()[0]
+			run.SetConfig(id)
+			run.Sample(checkLoopNarrow(c.Prog(id), run.Rule("LOOP-narrow", "no up-counted 8/16-bit loop counter is tested with an inclusive bound that can be the largest value of its type (expand_message counts blocks in one octet)", 1).RequireControl(1)))
+		}
 	}
 }
